@@ -294,3 +294,11 @@ def s_next_map(a, b, v):
 
 def s_diff(a, b, v):
     return np.hstack([np.diff(a), np.diff(b[:1]), np.array([np.sum(np.diff(b))])])
+
+
+def s_full_like(a, b, v):
+    x = np.full_like(a, 2.75)             # integer array: the fill value is truncated toward zero
+    y = np.full_like(a * 0.5, 2.5) * 2
+    z = np.full_like(a, -2.75)
+    w = np.full_like(b, v, dtype=float) * 4
+    return np.hstack([x, y, z, w])
